@@ -129,7 +129,10 @@ def build_list(game, name, rows, labels=None):
     "perm"    labels rotated (1, 2, ..., n-1, 0): a permutation of 0..n-1 that is not in row order
     "sorted"  the rows as given (possibly not in time order) passed through the public .sorted(): rows in time order,
               labels permuted
-    "int"     default labels, offset (and length) stored in integer-typed columns (the values must be whole numbers)"""
+    "int"     default labels, offset (and length) stored in integer-typed columns (the values must be whole numbers)
+    "dup"     REPEATED labels: the frames of two lists (first half / second half of the rows, each with labels 0..k-1) joined by
+              pd.concat WITHOUT ignore_index and handed to the list class: labels 0..k-1, 0..n-k-1 (n = 1: one row, label 0)
+    "same"    REPEATED labels: the list built from a DataFrame whose index carries ONE label for every row (7, 7, 7, ...)"""
     t = game_table()[game]
     cls, item = (t["lists"].get(name) or t["extra"][name])
     rows = [_row_kwargs(game, name, r) for r in rows]
@@ -137,6 +140,14 @@ def build_list(game, name, rows, labels=None):
         return cls([])
     if labels == "sorted":
         return cls([item(**r) for r in rows]).sorted()
+    if labels == "dup":
+        k = len(rows) // 2
+        parts = [cls([item(**r) for r in part]).df for part in (rows[:k], rows[k:]) if part]
+        return cls(pd.concat(parts))
+    if labels == "same":
+        df = cls([item(**r) for r in rows]).df.copy()
+        df.index = [7] * len(df)
+        return cls(df)
     if labels in (None, "gappy", "rev", "perm", "int"):
         lst = cls([item(**r) for r in rows])
         if labels == "perm":
@@ -986,6 +997,7 @@ def _c12_specs(game):
     return out + _c12_more_specs(game)
 
 
+REPEATED_LABEL_SPECS = ("repeated_labels", "repeated_labels_all", "repeated_labels_larger")
 NEW_SPECS = ("empty_bpms", "unsorted_perm", "ties_rev", "negative_large", "int_columns", "sv_ties_unsorted", "sv_only", "sm_all_lists", "one_row")
 
 
@@ -1017,6 +1029,30 @@ def _c12_more_specs(game):
     out.append(("after_rate", std_spec(game, pre=[["rate", 1.0]], **base), 4))
     out.append(("after_append", std_spec(game, pre=[["append", "hits"]], hits=[(500, 1)], holds=[(1000, 1, 250)], bpms=[(0, 120)]), 4))
     out.append(("after_stack_edit", std_spec(game, pre=[["stack_edit"]], **base), 4))
+    return out + _c12_repeated_label_specs(game)
+
+
+def _c12_repeated_label_specs(game):
+    """dimension 18: REPEATED ROW LABELS - lists whose frame index has duplicate labels, as public construction gives them:
+    ListClass(pd.concat([a.df, b.df])) without ignore_index ("dup": labels 0, 0, 1 / 0, 1, 2, 0, 1, 2) or a list built from a
+    frame with one label on every row ("same": 7, 7).  One list of the chart / every list of the chart (notes, tempo, SV, stops,
+    mines) / a larger chart, rows in and out of time order.  Lengths, row order and values are compared as for every chart (the
+    statement is silent about the labels themselves: not asserted)."""
+    sv = game in ("osu", "qua")
+    out = []
+    out.append(("repeated_labels", std_spec(game, hits=[(0, 0), (500, 1), (600, 2)], holds=[], bpms=[(0, 120)], labels=dict(hits="dup")), 4))
+    if sv:
+        out.append(("repeated_labels_all", std_spec(game, hits=[(500, 1), (0, 0)], holds=[], bpms=[(0, 120), (700, 60)], svs=[(250, 1.5), (250, 0.5)],
+                                                    labels=dict(hits="same", bpms="dup", svs="dup")), 6))
+    elif game == "sm":
+        out.append(("repeated_labels_all", std_spec(game, hits=[(500, 1), (0, 0)], holds=[], bpms=[(0, 120), (700, 60)], stops=[(500, 250), (400, 10)], mines=[(750, 1), (750, 2)],
+                                                    labels=dict(hits="same", bpms="dup", stops="dup", mines="same")), 8))
+    else:
+        out.append(("repeated_labels_all", std_spec(game, hits=[(500, 1), (0, 0)], holds=[], bpms=[(0, 120), (700, 60)], labels=dict(hits="same", bpms="dup")), 4))
+    out.append(("repeated_labels_larger", std_spec(game, hits=[(i * 250, i % 4) for i in range(6)], holds=[(2000 + i * 500, (i + 1) % 4, 250) for i in range(3)], bpms=[(0, 120), (1000, 180), (3000, 90)],
+                                                   labels=dict(hits="dup", holds="same", bpms="dup"), **({"svs": [(0, 1.0), (1250, 0.5)], } if sv else {})), 12 + (2 if sv else 0)))
+    if sv:
+        out[-1][1].setdefault("labels", {})["svs"] = "same"
     return out
 
 
@@ -1115,7 +1151,9 @@ def _c12_game(rep, game):
     rep.extra["condition_masks_differing_between_stack_view_and_lists"] = PHANTOM[0]
     rep.bound = (f"{game}: {len(specs)} charts (<= 4 stacked rows incl. empty lists, gappy / filtered labels; one larger chart; added: empty tempo list alone, rows not in time order, "
                  f"permuted / reversed / sorted()-made labels on notes, tempo, SV and stop lists, ties (two notes / tempo changes / SVs at one time), zero-length hold on a mask threshold, "
-                 f"negative / 1e9 / fractional times, integer-typed offset and length columns, every StepMania list kind filled, osu samples filled, single row); "
+                 f"negative / 1e9 / fractional times, integer-typed offset and length columns, every StepMania list kind filled, osu samples filled, single row; "
+                 f"dimension 18, REPEATED ROW LABELS: {len(REPEATED_LABEL_SPECS)} charts whose lists carry duplicate index labels as ListClass(pd.concat([a.df, b.df])) without ignore_index (0, 0, 1 / 0, 1, 2, 0, 1, 2) or a frame with one label on every row (7, 7) give them - "
+                 f"on one list, on every list kind of the chart (notes, tempo, SV, stops, mines), on a larger chart); "
                  f"breadth first on every chart: reduced-alphabet single ops, EVERY COLUMN NAME FOUND IN THE DATA of the chart's stacked lists beyond the five base ones ({sorted(set(_data_columns(game)) - set(_BASE_COLS))}: "
                  f"plain assignment of a value of the column's kind; on {len([x for x in specs if x[0] in RICH_SPECS])} charts also += / -= / self-assignment / loc assignment; a column the stack does not expose is the class stack_property_missing.<game>.<column>), "
                  f"{len(RANGE_OPS)} value-range ops (shift by -1e9 / +1e12, column * -1, offset * 0, column = 0, column - 3, bpm = 0.001), {len(_more_restacks(game))} further type restrictions (NoteList, exact list classes) x 3 assignments, 6 + 4 random complete-alphabet ops / "
@@ -1250,6 +1288,9 @@ def _mapset_specs(game):
             ("no_holds_middle", dict(game=game, maps=[a, b, c])), ("no_holds_first", dict(game=game, maps=[b, c])),
             ("no_hits_middle", dict(game=game, maps=[c, nh, a])), ("no_bpms_middle", dict(game=game, maps=[a, nb, ic])),
             ("five_mixed", dict(game=game, maps=[a, b, nh, e, ic])), ("only_empty_charts", dict(game=game, maps=[e, e]))]
+    # dimension 18: charts whose lists carry REPEATED row labels (pd.concat of two lists' frames without ignore_index; one label on every row)
+    dl = std_spec(game, hits=[(0, 0), (500, 1), (600, 2)], holds=[(700, 1, 50), (900, 0, 60)], bpms=[(0, 120), (700, 60)], labels=dict(hits="dup", holds="same", bpms="dup"))
+    out += [("repeated_labels_middle", dict(game=game, maps=[a, dl, b])), ("repeated_labels_twice", dict(game=game, maps=[dl, dl]))]
     if game in ("osu", "qua"):
         sa = std_spec(game, hits=[(0, 0)], holds=[], bpms=[(0, 120)], svs=[(500, 2.0), (250, 0.5), (500, 0.75)], labels=dict(svs="perm"))
         out += [("with_svs", dict(game=game, maps=[sa, a, b]))]
@@ -1331,7 +1372,7 @@ def _c12_mapset_game(rep, game):
     rep.extra["stopped_by_time_budget"] = st["stopped"]
     rep.extra["mapsets"] = [x[0] for x in specs]
     rep.extra["sequences_breadth_first_phase"] = n0
-    rep.bound = (f"{game}: {len(specs)} mapsets (1-5 charts of different sizes, two equal charts, no chart; an all-empty chart and a chart without holds / hits / tempo rows at the FIRST, a MIDDLE and the last "
+    rep.bound = (f"{game}: {len(specs)} mapsets (1-5 charts of different sizes, two equal charts, no chart; a chart whose hit / hold / tempo lists carry REPEATED row labels (pd.concat without ignore_index, one label on every row) in the middle of a set and twice; an all-empty chart and a chart without holds / hits / tempo rows at the FIRST, a MIDDLE and the last "
                  f"position, only empty charts; sm / o2j: every game specific column name found in the data, += 1 and self-assignment, class stack_property_missing.<game>.<column>; gappy / filtered / permuted / reversed / sorted()-made labels and rows not in time order on notes and tempo lists, ties, zero-length holds, negative / 1e9 / fractional "
                  f"times, integer-typed columns, SV lists (osu, quaver), every StepMania list kind): breadth first 6 ops + 2 sequences on every mapset (one with a second equal mapset and its stacker alive), "
                  f"then every single whole-column op (+=, -=, *=, /=, self-assign on offset/column/bpm/length/metronome, python and numpy scalar values; re-stack), {rep.n(10, 300)} random length-3 sequences per mapset "
@@ -1518,7 +1559,7 @@ def _fresh_after_change_histories():
 def restack_after_direct_change(rep):
     hs = _fresh_after_change_histories()
     for game in GAMES:
-        specs = [x for x in _c12_specs(game) if x[0] in ("small", "filtered", "larger", "empty_holds", "unsorted_perm")]
+        specs = [x for x in _c12_specs(game) if x[0] in ("small", "filtered", "larger", "empty_holds", "unsorted_perm", "repeated_labels_larger")]
         for h in hs:  # breadth first over the charts
             for label, spec, nrows in specs:
                 if rep.out_of_time(30, 200):
@@ -1527,7 +1568,7 @@ def restack_after_direct_change(rep):
                 rep.case(case, nontrivial=True)
                 for what, d in _run_stale_case(case, stale=False):
                     rep.fail(what, case, d)
-    rep.bound = (f"5 games x 5 charts x {len(hs)} histories: s = m.stack(); one assignment through s (3 ops); the lists changed directly (list.offset / column / length / bpm += v, m.hits / holds / bpms = "
+    rep.bound = (f"5 games x 6 charts (one with REPEATED row labels on its hit, hold and tempo lists) x {len(hs)} histories: s = m.stack(); one assignment through s (3 ops); the lists changed directly (list.offset / column / length / bpm += v, m.hits / holds / bpms = "
                  f"list.after(t), reverse sort, append: 10 changes); s = m.stack() again; one assignment through the new s (6 ops incl. a conditional one); 2 longer histories with two rounds")
     rep.rule = "a case is (chart, history); compared with the per-list oracle after every step under the ordinary clause ids; no stacker is used after a change it has not seen"
 
